@@ -1,6 +1,5 @@
 import Cutadapt.Index
-/-! Look-up through the index: `_match_to_one_length`, `_match_to_multiple_lengths` on N-free reads that are at
-    least as long as every indexed length. -/
+/-! Look-up through the index: `_match_to_one_length`, `_match_to_multiple_lengths` on N-free reads of any length. -/
 namespace Cutadapt.Index
 open Cutadapt Cutadapt.Adapters
 
@@ -55,9 +54,14 @@ theorem removedAffix_subset (p : Bool) (s : Bytes) (l : Nat) : ∀ c ∈ removed
   | true => exact List.mem_of_mem_take (by simpa [removedAffix] using hc)
   | false => exact List.mem_of_mem_drop (by simpa [removedAffix] using hc)
 
-theorem lookupAffix_nfree {D : Type} (ops : DictOps D) (idx : AdapterIndex D) (affix : Bytes) (hN : (78 : UInt8) ∉ affix)
-    (r : Nat × Nat × Int) (h : lookupAffix ops idx affix = some r) :
-    ∃ m : Nat, r.2.2 = (m : Int) ∧ ops.get? idx.index affix = some (r.1, r.2.1, m) := by
+theorem makeAffix_length_le (p : Bool) (s : Bytes) (l : Nat) (h : p = false → 1 ≤ l) :
+    (makeAffix p s l).length = min l s.length := by
+  rw [makeAffix_removed p s l h]
+  cases p <;> simp [removedAffix] <;> omega
+
+theorem lookupAffix_nfree {D : Type} (ops : DictOps D) (idx : AdapterIndex D) (affix : Bytes) (length : Nat)
+    (hN : (78 : UInt8) ∉ affix) (r : Nat × Nat × Int × Nat) (h : lookupAffix ops idx affix length = some r) :
+    ∃ m : Nat, r.2.2.1 = (m : Int) ∧ r.2.2.2 = length ∧ ops.get? idx.index affix = some (r.1, r.2.1, m) := by
   have hc : affix.contains 78 = false := by simpa using hN
   simp only [lookupAffix, hc, Bool.false_eq_true, if_false] at h
   split at h
@@ -65,61 +69,67 @@ theorem lookupAffix_nfree {D : Type} (ops : DictOps D) (idx : AdapterIndex D) (a
   · rename_i ai e m hg
     simp only [Option.some.injEq] at h
     subst h
-    exact ⟨m, rfl, hg⟩
+    exact ⟨m, rfl, rfl, hg⟩
 
-/-- what `best_adapter / best_length / best_m / best_e` hold: nothing yet, or a hit at one of the indexed lengths -/
+/-- what `best_adapter / best_length / best_m / best_e` hold: nothing yet, or a hit at one of the indexed lengths that
+    fits into the read -/
 def GoodBest {D : Type} (ops : DictOps D) (idx : AdapterIndex D) (up : Bytes) (b : BestSoFar) : Prop :=
-  b.m = -1 ∨ ∃ m : Nat, b.m = (m : Int) ∧ b.length ∈ idx.lengths ∧
+  b.m = -1 ∨ ∃ m : Nat, b.m = (m : Int) ∧ b.length ∈ idx.lengths ∧ b.length ≤ up.length ∧
     ops.get? idx.index (removedAffix idx.isPrefix up b.length) = some (b.adapter, b.e, m)
 
 theorem multiLoop_good {D : Type} (ops : DictOps D) (idx : AdapterIndex D) (up : Bytes) (hN : (78 : UInt8) ∉ up)
     (hpos : idx.isPrefix = false → ∀ l ∈ idx.lengths, 1 ≤ l) :
     ∀ (ls : List Nat) (L : Nat) (best : BestSoFar), (∀ l ∈ ls, l ∈ idx.lengths) → ls.Pairwise (· ≥ ·) →
-      (∀ l ∈ ls, l ≤ L) → L ≤ up.length → GoodBest ops idx up best →
-      GoodBest ops idx up (multiLoop ops idx ls (removedAffix idx.isPrefix up L) best) := by
+      (∀ l ∈ ls, l ≤ up.length → l ≤ L) → L ≤ up.length → GoodBest ops idx up best →
+      GoodBest ops idx up (multiLoop ops idx up.length ls (removedAffix idx.isPrefix up L) best) := by
   intro ls
   induction ls with
   | nil => intro L best _ _ _ _ hb; simpa [multiLoop] using hb
   | cons length rest ih =>
     intro L best hmem hpw hle hL hb
     rw [List.pairwise_cons] at hpw
-    have hlenL : length ≤ L := hle length (by simp)
     have hlenmem : length ∈ idx.lengths := hmem length (by simp)
-    have haff : makeAffix idx.isPrefix (removedAffix idx.isPrefix up L) length = removedAffix idx.isPrefix up length := by
-      rw [makeAffix_removed _ _ _ (fun hp => hpos hp length hlenmem)]
-      exact removedAffix_thread _ _ _ _ hlenL hL
-    have hrec : ∀ b, GoodBest ops idx up b →
-        GoodBest ops idx up (multiLoop ops idx rest (removedAffix idx.isPrefix up length) b) := by
-      intro b hb'
-      exact ih length b (fun l hl => hmem l (by simp [hl])) hpw.2 (fun l hl => hpw.1 l hl) (by omega) hb'
     simp only [multiLoop]
     split
     · exact hb
-    · simp only [haff]
-      split
-      · exact hrec best hb
-      · rename_i ai e m hlk
-        have hNa : (78 : UInt8) ∉ removedAffix idx.isPrefix up length :=
-          fun hc => hN (removedAffix_subset _ _ _ _ hc)
-        obtain ⟨m', hm', hg⟩ := lookupAffix_nfree ops idx _ hNa (ai, e, m) hlk
-        simp only at hm' hg
+    · split
+      · -- longer than the read: skipped, the affix is left alone
+        exact ih L best (fun l hl => hmem l (by simp [hl])) hpw.2 (fun l hl => hle l (by simp [hl])) hL hb
+      · rename_i hgt
+        have hlen_n : length ≤ up.length := by omega
+        have hlenL : length ≤ L := hle length (by simp) hlen_n
+        have haff : makeAffix idx.isPrefix (removedAffix idx.isPrefix up L) length = removedAffix idx.isPrefix up length := by
+          rw [makeAffix_removed _ _ _ (fun hp => hpos hp length hlenmem)]
+          exact removedAffix_thread _ _ _ _ hlenL hL
+        have hrec : ∀ b, GoodBest ops idx up b →
+            GoodBest ops idx up (multiLoop ops idx up.length rest (removedAffix idx.isPrefix up length) b) := by
+          intro b hb'
+          exact ih length b (fun l hl => hmem l (by simp [hl])) hpw.2 (fun l hl _ => hpw.1 l hl) hlen_n hb'
+        simp only [haff]
         split
-        · apply hrec
-          right
-          exact ⟨m', hm', hlenmem, hg⟩
         · exact hrec best hb
+        · rename_i ai e m ml hlk
+          have hNa : (78 : UInt8) ∉ removedAffix idx.isPrefix up length :=
+            fun hc => hN (removedAffix_subset _ _ _ _ hc)
+          obtain ⟨m', hm', hml, hg⟩ := lookupAffix_nfree ops idx _ length hNa (ai, e, m, ml) hlk
+          simp only at hm' hml hg
+          split
+          · apply hrec
+            right
+            exact ⟨m', hm', by rw [hml]; exact hlenmem, by rw [hml]; exact hlen_n, by rw [hml]; exact hg⟩
+          · exact hrec best hb
 
-/-- **Key-level soundness of the look-up.** For an N-free read at least as long as every indexed length, a match
-    returned through the index was found as a dictionary key: the removed affix (of the upper-cased read), at one of
-    the indexed lengths, is a key whose entry is the reported adapter with the reported errors and score; the
-    coordinates are those of that affix. -/
+/-- **Key-level soundness of the look-up**, for every N-free read (short ones included): a match returned through the
+    index was found as a dictionary key — the removed affix (of the upper-cased read), at one of the indexed lengths that
+    fits into the read, is a key whose entry is the reported adapter with the reported errors and score; the coordinates
+    are those of that affix. `hkeys`: the length of every key is one of the indexed lengths (true of `_make_index`). -/
 theorem indexMatchTo_key {D : Type} (ops : DictOps D) (idx : AdapterIndex D) (read : Bytes)
     (hN : (78 : UInt8) ∉ read.map asciiUpper)
     (hdesc : idx.lengths.Pairwise (· ≥ ·))
-    (hlen : ∀ l ∈ idx.lengths, l ≤ read.length)
+    (hkeys : ∀ s en, ops.get? idx.index s = some en → s.length ∈ idx.lengths)
     (hpos : idx.isPrefix = false → ∀ l ∈ idx.lengths, 1 ≤ l)
     (mt : IndexMatch) (h : indexMatchTo ops idx read = some mt) :
-    ∃ (len m : Nat), len ∈ idx.lengths ∧
+    ∃ (len m : Nat), len ∈ idx.lengths ∧ len ≤ read.length ∧
       mt.astart = 0 ∧ mt.astop = (idx.adapters.getD mt.adapter default).seq.length ∧ mt.score = (m : Int) ∧
       (if idx.isPrefix then mt.rstart = 0 ∧ mt.rstop = len
        else mt.rstart = ((read.length - len : Nat) : Int) ∧ mt.rstop = read.length) ∧
@@ -135,18 +145,24 @@ theorem indexMatchTo_key {D : Type} (ops : DictOps D) (idx : AdapterIndex D) (re
       | [l0], _ => exact ⟨l0, rfl⟩
     have hmem : l0 ∈ idx.lengths := by simp [hl0]
     simp only [hl0, List.headD_cons] at h
-    rw [makeAffix_removed _ _ _ (fun hp => hpos hp l0 hmem)] at h
     split at h
     · simp at h
-    · rename_i ai e m hlk
-      have hNa : (78 : UInt8) ∉ removedAffix idx.isPrefix (read.map asciiUpper) l0 :=
-        fun hc => hN (removedAffix_subset _ _ _ _ hc)
-      obtain ⟨m', hm', hg⟩ := lookupAffix_nfree ops idx _ hNa (ai, e, m) hlk
-      simp only at hm' hg
+    · rename_i ai e m ml hlk
+      have hpos0 : idx.isPrefix = false → 1 ≤ l0 := fun hp => hpos hp l0 hmem
+      have hNa : (78 : UInt8) ∉ makeAffix idx.isPrefix (read.map asciiUpper) l0 := by
+        rw [makeAffix_removed _ _ _ hpos0]
+        exact fun hc => hN (removedAffix_subset _ _ _ _ hc)
+      obtain ⟨m', hm', hml, hg⟩ := lookupAffix_nfree ops idx _ l0 hNa (ai, e, m, ml) hlk
+      simp only at hm' hml hg
+      -- the key has length l0, so the read is not shorter than l0
+      have hkl := hkeys _ _ hg
+      rw [hl0, List.mem_singleton, makeAffix_length_le _ _ _ hpos0, hupl] at hkl
+      have hl0n : l0 ≤ read.length := by omega
+      rw [makeAffix_removed _ _ _ hpos0] at hg
       simp only [Option.some.injEq] at h
       subst h
-      refine ⟨l0, m', hmem, ?_⟩
-      have := hlen l0 hmem
+      subst hml
+      refine ⟨ml, m', hmem, hl0n, ?_⟩
       cases hp : idx.isPrefix
       · simp only [makeMatch, hp, Bool.false_eq_true, if_false]
         rw [hp] at hg
@@ -157,18 +173,18 @@ theorem indexMatchTo_key {D : Type} (ops : DictOps D) (idx : AdapterIndex D) (re
   · -- several lengths
     simp only [matchToMultipleLengths] at h
     have hgood := multiLoop_good ops idx (read.map asciiUpper) hN hpos idx.lengths read.length {}
-      (fun l hl => hl) hdesc hlen (by omega) (Or.inl rfl)
-    rw [← hupl, removedAffix_full] at hgood
-    generalize multiLoop ops idx idx.lengths (read.map asciiUpper) {} = best at h hgood
+      (fun l hl => hl) hdesc (fun l _ hl => by omega) (by omega) (Or.inl rfl)
+    rw [← hupl, removedAffix_full, hupl] at hgood
+    generalize multiLoop ops idx read.length idx.lengths (read.map asciiUpper) {} = best at h hgood
     split at h
     · simp at h
     · rename_i hne
-      rcases hgood with hm1 | ⟨m', hm', hmem, hg⟩
+      rcases hgood with hm1 | ⟨m', hm', hmem, hln, hg⟩
       · exact absurd hm1 hne
       · simp only [Option.some.injEq] at h
         subst h
-        refine ⟨best.length, m', hmem, ?_⟩
-        have := hlen best.length hmem
+        rw [hupl] at hln
+        refine ⟨best.length, m', hmem, hln, ?_⟩
         cases hp : idx.isPrefix
         · simp only [makeMatch, hp, Bool.false_eq_true, if_false]
           rw [hp] at hg
